@@ -16,7 +16,8 @@ Decided statically (all for every member of the stated input classes / for all i
       arbitrary (pk, sig) (the D2 class of defects), beyond the assumed ones of rules/assume.json.
   R5  contexts longer than 255 bytes are rejected (see C07; re-checked here for verify roots).
   R6  UseHint (both gamma2, h = 0 and 1), Decompose / HighBits / LowBits and mod+- equal their FIPS
-      definitions on their whole domain (engine of C15): w1' is the FIPS w1' for every w'_approx, h.
+      definitions on their whole domain (engine of C15): w1' is the FIPS w1' for every w'_approx, h;
+      CoeffFromThreeBytes (ExpandA's kernel) equals Alg. 14 on all 2^24 inputs.
   R7  the ring arithmetic of Alg. 8, symbolically: NTT applied to exactly the decoded z and to the
       challenge; w'_approx = NTT^-1(A-hat o NTT(z) - c-hat o (t1*2^d)) with the precompute's
       Montgomery factor cancelling; UseHint applied to its coefficients.  With C18 F and C11 D6
@@ -75,7 +76,7 @@ def main(tier):
     samples, n_classes = analyse(rep, ob, aicheck.sets_for(tier))
     ring_arithmetic(rep, ob, aicheck.sets_for(tier) if tier != "quick" else ["44", "65"], samples)
     # R6: the scalar kernels of the decision equal their FIPS definitions on the whole domain
-    ksamples, kstats = c15.analyse(rep, ob, tier, {"use_hint", "decompose", "center_mod"}, prefix="R6:")
+    ksamples, kstats = c15.analyse(rep, ob, tier, {"use_hint", "decompose", "center_mod", "three_bytes"}, prefix="R6:")
     cov = {
         "obligations": cnt[0], "discharged": cnt[1],
         "checker_cmd": "python3 bin/check C02 (driver ai mode on abstract signature classes through verify / hash_verify / _internal_verify)",
@@ -186,7 +187,7 @@ def analyse(rep, ob, sets, rules=("R1", "R2", "R3", "R4", "R5"), prefix=""):
         for prod in (roots.PK_PRODUCERS if ("R3" in rules or "R4" in rules) else []):
             for root in ("verify", "hash_verify", "internal_verify"):
                 jid = "%s:any:%s/%s" % (s, root, prod)
-                J.append((jid, n[root], {"pk": prod, "len.ctx": "0..255"}))
+                J.append((jid, n[root], {"pk": prod, "len.ctx": "0..255", "probe": "hashing::rej_ntt_poly"}))
                 M[jid] = ("R34", prod, root)
         for root in (("verify", "hash_verify", "internal_verify") if "R5" in rules else ()):
             for cn, rng in (("eq256", "256..256"), ("ge257", "257..max")):
@@ -242,6 +243,7 @@ def analyse(rep, ob, sets, rules=("R1", "R2", "R3", "R4", "R5"), prefix=""):
                     and str(sib[0]["items"][0].get("tag", "")).startswith("in.")
                 ob(oks, "R3:challenge-from-whole-ctilde:%s" % root, {"rule": "R3 SampleInBall absorbs the whole decoded c-tilde (exact copy of the first lambda/4 signature bytes)", "entry": j["root"], "set": s,
                                                                      "sites": [x["rendered"][:160] for x in sib], "tags": [x["items"][0].get("tag") for x in sib]})
+                st.sampler_fill(j, ob, "R3:%s/%s" % (root, cname), {"rej_ntt_poly": P["k"] * P["l"]})
                 uh = sum(v for c, v in j["calls"].items() if c == "high_low::use_hint")
                 ob(uh == 256 * P["k"], "R3:use-hint-all:%s" % root, {"rule": "R3 UseHint is applied to all 256*k coefficients", "entry": j["root"], "set": s, "use_hint_calls": uh})
         # R4: obligations on verify paths
